@@ -182,3 +182,37 @@ pub fn nested_pairs(out: &mut Out, v: &crate::vocab::Vocab, e: &str) {
         }
     }
 }
+
+/// C03 "a function name that this evaluator does not offer yields Err": near misses of every keyword - one letter inserted,
+/// deleted, replaced or two neighbours swapped - applied to arguments.  The harness does not judge them (it has no lexer of its own):
+/// every call is recorded, and the trace specification (CalcTrace!StatusOK) requires Err wherever the specification rejects.
+pub fn near_miss_names(out: &mut Out, v: &crate::vocab::Vocab, e: &str, rng: &mut Rng, n: usize) {
+    let letters: Vec<char> = "abcdeghilmnopqrstuwx_2".chars().collect();
+    let mut names: Vec<(String, String)> = Vec::new();
+    for k in v.keywords.iter() { if !names.iter().any(|(x, _)| *x == k.name) { names.push((k.name.clone(), k.cls.clone())); } }
+    let ph = crate::call::default_placeholder(e);
+    for i in 0..n {
+        out.heartbeat(i as u64);
+        out.stats.items += 1;
+        let (name, cls) = &names[rng.below(names.len())];
+        let mut cs: Vec<char> = name.chars().collect();
+        let pos = rng.below(cs.len() + 1);
+        match rng.below(4) {
+            0 => cs.insert(pos, letters[rng.below(letters.len())]),
+            1 => { if cs.len() > 1 { cs.remove(pos.min(cs.len() - 1)); } }
+            2 => { let p = pos.min(cs.len() - 1); cs[p] = letters[rng.below(letters.len())]; }
+            _ => { if cs.len() > 1 { let p = pos.min(cs.len() - 2); cs.swap(p, p + 1); } }
+        }
+        let cand: String = cs.into_iter().collect();
+        let args = match cls.as_str() { "f2" => "(2,3)", "fv" | "fa" => if rng.below(2) == 0 { "(2,3,1)" } else { "(2)" }, _ => if e == "cpx" { "(0.5)" } else { "(1)" } };
+        let text = match rng.below(3) { 0 => format!("{}{}", cand, args), 1 => format!("2*{}{}+1", cand, args), _ => format!("{}{}", cand, args.replace("(", "(-")) };
+        let (o, t) = crate::call::call(e, &text, &ph);
+        out.stats.calls += 1;
+        out.note_ticks(&text, &t);
+        let key = h64(&("nearmiss", e, &text)); out.stats.distinct.insert(key); out.stats.nontrivial.insert(key);
+        if !o.returned() { out.finding("panic", e, &text, &ph, "Ok or Err", &o.show(), json!({"near_miss_of": name})); }
+        out.stats.events += 1;
+        out.event(e, &text, &ph, &o, &t, json!({"v": "unclaimed"}), true);
+        if out.stats.samples.len() < 6 && i % 397 == 5 { out.stats.samples.push(json!({"e": e, "near_miss_of": name, "input": text, "outcome": o.show()})); }
+    }
+}
